@@ -88,6 +88,15 @@ PROPS = {
         "rule": STREAM_RULE + "; plus a residue sweep: block sizes 32/33/64 with every input length 0..2bs (every residue of len mod bs)",
         "trusted_base": STREAM_TRUSTED, "assumptions": [],
     },
+    "C09": {
+        "streams": {"quick": [("stream", ["--cases", 250, "--max-samples", 6000]), ("stream", ["--cases", 150, "--max-samples", 9000, "--focus", "loud"])],
+                    "thorough": [("stream", ["--cases", 4000, "--max-samples", 40000]), ("stream", ["--cases", 3000, "--max-samples", 40000, "--focus", "loud"])],
+                    "search": [("stream", ["--cases", 1500, "--max-samples", 9000, "--focus", "loud"])]},
+        "diff_prefix": ["c09."], "oracle_fields": ["o_c09"], "class_of": stream_class,
+        "rule": STREAM_RULE + "; plus a 'loud' focus (20/24-bit full-scale, alternating, heavy-tailed, loud/silent partition mixes, r=-l stereo; max_parameter in {0,1,2,8,14}). For every single-thread record the encoder's decision logic is REPLAYED in Lean (Model/Encode.lean: encodeFrame on the oracle log of hook 3) and must reproduce every frame byte for byte (field c09.functional); the direct oracle compares every frame's byte length with header + channels*(8+n*bps) bits + CRC",
+        "trusted_base": STREAM_TRUSTED + ["functional encoder model Model/Encode.lean mirrors coding.rs:204-560 (tied byte-exactly on every single-thread record through the oracle log)"],
+        "assumptions": ["float-derived values (quantised LPC parameters, entropy estimates) are an oracle: the theorems hold for every oracle log"],
+    },
     "C11": {
         "streams": {
             "quick": [("sink", ["--cases", 3000, "--exhaustive"])],
